@@ -44,6 +44,15 @@ def extra_objects():
         out[f"x.{d}.isin_set"] = lambda Q=Q: Q.from_(t1).select(t1.a).where(t1.a.isin(["q", "w", "e", "r", "t", "y"]))
         out[f"x.{d}.tuple_join"] = lambda Q=Q: Q.from_(t1).join(t2).on(t1.a == t2.a).select(t1.a).where(P.Tuple(t1.a, t1.b).isin([(1, 2), (3, 4)]))
         out[f"x.{d}.rollup_set"] = lambda Q=Q: Q.from_(t1).select(t1.a, fn.Count("*")).rollup([t1.a, t1.b], t1.c)
+        # constants whose literal form differs between dialects (escape rules, boolean / array / interval forms), at generic-wrapper positions
+        out[f"x.{d}.values"] = lambda Q=Q: (Q.from_(t1).select(t1.a, fn.Coalesce(t1.b, "C:\\dir\\'q'"))
+                                            .where(t1.j == {"name": "café", "note": 'say "hi"', "p\\": [1, None, True]})
+                                            .where(t1.c == "back\\slash").where(t1.d == True)  # noqa: E712
+                                            .where(t1.e.isin(["it's", 'dq"', "%s?"])).where(t1.f == P.Array(1, 2))
+                                            .where(t1.g > fn.Now() - P.Interval(days=1, hours=2)).where(t1.j.contains({"k": "v\\w"})))
+        out[f"x.{d}.schema_names"] = lambda Q=Q: (Q.from_(P.Table("t", schema=("db", "My Sch"))).join(P.Table("u", schema="s`q")).on_field("a")
+                                                  .select(P.Table("t", schema=("db", "My Sch")).field("co\"l")))
+        out[f"x.{d}.upsert_values"] = lambda Q=Q: Q.into(t1).insert(1, "a\\b", {"k": "v\\"}).on_conflict("a").do_update("b", "c\\d")
     return out
 
 
@@ -113,12 +122,14 @@ def run(tier: str) -> int:
         procs.append((s, subprocess.Popen([sys.executable, "-m", "harness.c02", "--child", tier], env=env, stdout=subprocess.PIPE, text=True)))
     events, keys, classes = [], [], {}
     footprint = {}
-    live = []
+    live, makers = [], {}
     for key, fname, sname, lname in objs:
         o = make(fams, fname, sname, lname)
         if o is not None:
             live.append((key, o))
+            makers[key] = (lambda fname=fname, sname=sname, lname=lname: make(fams, fname, sname, lname))
     live += [(k, mk()) for k, mk in extra.items()]
+    makers.update(extra)
     sys.setswitchinterval(1e-6)
     for key, o in live:
         pre = sdigest(o)
@@ -136,7 +147,13 @@ def run(tier: str) -> int:
                 attr1 = {a: c01.deep_repr(v) for a, v in vars(o).items()}
                 footprint[key] = sorted(a for a in attr1 if attr0.get(a) != attr1[a])
                 pre_for_next = post
-        ev = {"tid": len(events), "pre": pre, "renders": renders, "procs": [], "threads": [], "given": given_parameterizer(o)}
+        # a fresh, equal object per context, rendered under that context only: the interleaved sequence above must give the same
+        iso = []
+        if tier != "quick" or key.startswith("x.") or ".full" in key or ".upsert" in key or len(events) % 5 == 0:
+            for c in sorted({r["c"] for r in renders}):
+                out = observe.render_one(makers[key](), c)
+                iso.append({"c": c, "out": hashlib.sha1(out.encode("utf-8", "surrogatepass")).hexdigest()[:12]})
+        ev = {"tid": len(events), "pre": pre, "renders": renders, "procs": [], "threads": [], "given": given_parameterizer(o), "isolated": iso}
         events.append(ev)
         keys.append(key)
         classes[key] = type(o).__name__
@@ -200,7 +217,7 @@ def run(tier: str) -> int:
             sig = [classes[key], kind] + ([",".join(detail)] if detail else [])
             rep.discrepancy([sig], {"object": key, "class": classes[key], "clause": kind, "contexts": cs[:6], "written_attributes": detail},
                             what={"impure": "rendering writes to the object", "unrepeatable": "a repeated render returns a different result",
-                                  "hashseed": "the result depends on PYTHONHASHSEED", "threads": "concurrent renders disagree",
+                                  "hashseed": "the result depends on PYTHONHASHSEED", "history-dependent": "a render depends on which contexts the object was rendered under before", "threads": "concurrent renders disagree",
                                   "parameterizer": "a caller-supplied parameterizer was not only appended to"}[kind])
     for n in (0, len(events) // 2, len(events) - 1):
         rep.sample({"object": keys[n], "class": classes[keys[n]], "renders": len(events[n]["renders"]), "processes": len(events[n]["procs"]),
